@@ -2669,3 +2669,89 @@ func E5DefaultWidth(c *core.Ctx, r *core.Report) {
 		r.Fail("E5.default-width", key, c.Pos(dw.Pos()), fmt.Sprintf("/W lists the codes from %d on, so code 0 (.notdef) takes /DW, but %s: a reader advances by the wrong amount after every character the font lacks", start, why))
 	}
 }
+
+// E5FilterApplied: a filter that writeVal encodes itself is applied on every path.
+func E5FilterApplied(c *core.Ctx, r *core.Report) {
+	r.Rule("E5.filter-applied", "pdfWriter.writeVal writes the stream's dictionary as its callers built it, /Filter included, and encodes the bytes itself for the filters its `switch filter` has cases for (Flate, ASCII85). In each of those cases every path replaces the stream bytes by the encoder's output (an assignment to the byte slice that is written after the dictionary); a path that leaves the case before that — `break` for payloads too short to be worth compressing — writes raw bytes under a dictionary that still says /FlateDecode, and a reader cannot decode the stream (a 2×2 image, the CIDToGIDMap of a font with six glyphs)")
+	p := c.MustPkg(pdfRel)
+	info := p.TypesInfo
+	wv := core.MustFuncDecl(p, "pdfWriter.writeVal")
+	n := 0
+	ast.Inspect(wv.Body, func(m ast.Node) bool {
+		rs, ok := m.(*ast.RangeStmt)
+		if !ok {
+			return true
+		}
+		// the loop over the filters: its body is a switch over a pdfFilter
+		var sw *ast.SwitchStmt
+		for _, st := range rs.Body.List {
+			if s, ok := st.(*ast.SwitchStmt); ok && s.Tag != nil {
+				if t := info.TypeOf(s.Tag); t != nil && isNamed(t, "renderers/pdf", "pdfFilter") {
+					sw = s
+				}
+			}
+		}
+		if sw == nil {
+			return true
+		}
+		// the byte slice: assigned in the cases and declared before the loop
+		counts := map[types.Object]int{}
+		for _, cs := range sw.Body.List {
+			ast.Inspect(cs, func(k ast.Node) bool {
+				if as, ok := k.(*ast.AssignStmt); ok && as.Tok == token.ASSIGN {
+					for _, l := range as.Lhs {
+						if id, ok := l.(*ast.Ident); ok {
+							if o := core.ObjOf(info, id); o != nil && o.Pos() < rs.Pos() {
+								if sl, ok := o.Type().Underlying().(*types.Slice); ok && types.Identical(sl.Elem(), types.Typ[types.Byte]) {
+									counts[o]++
+								}
+							}
+						}
+					}
+				}
+				return true
+			})
+		}
+		var bytesObj types.Object
+		for o, k := range counts {
+			if bytesObj == nil || k > counts[bytesObj] {
+				bytesObj = o
+			}
+		}
+		if bytesObj == nil {
+			return true
+		}
+		for _, cs := range sw.Body.List {
+			cc := cs.(*ast.CaseClause)
+			if len(cc.List) == 0 {
+				continue // pass-through: the bytes are already encoded
+			}
+			n++
+			key := "pdf.pdfWriter.writeVal|" + core.CaseLabel(info, cc) + "|the filter is applied on every path"
+			ok, bad := cpsMustHitOpt(cc.Body, func(st ast.Stmt) bool {
+				as, ok := st.(*ast.AssignStmt)
+				if !ok {
+					return false
+				}
+				for _, l := range as.Lhs {
+					if id, ok := l.(*ast.Ident); ok && core.ObjOf(info, id) == bytesObj {
+						return true
+					}
+				}
+				return false
+			}, true)
+			if ok {
+				r.OK("E5.filter-applied", key, c.Pos(cc.Pos()), "")
+			} else {
+				pos := cc.Pos()
+				if bad != nil {
+					pos = bad.Pos()
+				}
+				r.Fail("E5.filter-applied", key, c.Pos(pos), "a path through this case leaves the stream bytes as they are, while the dictionary written before them still names the filter: the stream does not decode")
+			}
+		}
+		return false
+	})
+	r.Count("E5.self-encoded-filters", n)
+	r.Floor("E5.self-encoded-filters", 2)
+}
